@@ -10,7 +10,7 @@ from pbt.recipes import RECIPES
 from pbt.props.c01_adjoint import from_pymoto, exc_site
 
 PROPERTY_ID = "C04"
-RULE = ("case = (module recipe as in C01, options, payload_seed, scalars a,b from {0,+-1,2.5,-0.3,1e3}, repetitions k in "
+RULE = ("case = (module recipe as in C01, options, payload_seed, scalars a,b from {0,+-1,2.5,-0.3,1e3} times a common magnitude {1,1e-10,1e-13,1e8}, repetitions k in "
         "1..3). Metamorphic oracle on one module object: (i) g(a*w1+b*w2) == a*g(w1)+b*g(w2); (ii) k sensitivity() calls "
         "without reset give k*g (seeds are handed over without copying, as finite_difference does); (iii) bit-wise "
         "snapshots of all input and output states are identical before/after sensitivity() and reset(); (iv) response() "
@@ -36,7 +36,9 @@ def strategy(tier):
                                       "a": st.sampled_from(SCAL), "b": st.sampled_from(SCAL), "k": st.integers(1, 3),
                                       # split: w1 and w2 seed complementary subsets of the outputs (the others stay
                                       # None), so that the combined seed has a different None-pattern than either part
-                                      "split": st.booleans()})
+                                      "split": st.booleans(),
+                                      # common magnitude of a and b: linearity must hold for tiny and huge seeds alike
+                                      "ab_scale": st.sampled_from([1.0, 1.0, 1.0, 1e-10, 1e-13, 1e8])})
     return st.sampled_from(names).flatmap(one)
 
 
@@ -184,7 +186,9 @@ def check_case(case):
     if not ok:
         return labels, V
     g2 = r[0][0]
-    a, bb = case["a"], case["b"]
+    a, bb = case["a"] * case.get("ab_scale", 1.0), case["b"] * case.get("ab_scale", 1.0)
+    if case.get("ab_scale", 1.0) != 1.0:
+        labels.append(f"ab_scale_{case['ab_scale']:g}")
     wc = [combine(a, x, bb, y) for x, y in zip(w1c, w2c)]
     ok, r = guarded(lambda: run(wc, 1), "sensitivity")
     if not ok:
